@@ -8,7 +8,7 @@ from .lin import CSet, le, ge, eq, lin
 
 
 class E4:
-    def __init__(self, facts, havoc=None, keep_instates=False):
+    def __init__(self, facts, havoc=None, keep_instates=False, soft_widen=False, probes=(), rule_c06a=False):
         """facts: analysis.facts.Facts"""
         OBLIGATIONS.clear()
         UNMODELLED.clear()
@@ -19,6 +19,9 @@ class E4:
         self.an.keep_instates = keep_instates
         if havoc is not None:
             self.an.havoc_threshold = havoc
+        self.an.soft_widen_on = soft_widen
+        self.an.probe_spec = list(probes)
+        self.an.rule_c06a = rule_c06a
         self.times = {}
 
     def summarize(self, key):
@@ -40,6 +43,9 @@ class E4:
                     seen.add(k)
                     out.append(o)
         return out
+
+    def probes(self):
+        return list(PROBES)
 
     def unmodelled(self):
         return dict(UNMODELLED)
